@@ -254,3 +254,14 @@ Theorem compact_v1_bytes_behave_like_a_map :
   forall d0 ops, Forall (op_good two32 d0) ops -> B1 + ops_bytes5 ops < two40 ->
     v1_bytes_outs ops = spec_outs ops.
 Proof. exact v1_bytes_refine. Qed.
+
+(* A store through a Tile object that fails in write_atomic (ENOSPC, EIO ...) leaves the object unstored (the
+   stored flag is set by tile_buffer only after the write): the retry through the SAME object writes the tile to
+   the address of the object.  (File cache without links; with links the model covers the same calls, see
+   tcall_step.) *)
+Theorem failed_store_then_retry_through_the_same_tile_object_writes :
+  forall layout ext link s t a d b d' b', tile_at layout ext t a -> t_stored t = false -> link = LNone ->
+    let '(s1, t1, r1) := tcall_step layout ext link s t (TStoreFail d b) in
+    r1 = Some false /\ t_stored t1 = false /\
+    fst (fst (tcall_step layout ext link s1 t1 (TStore d' b'))) = fstore layout ext link s1 a b'.
+Proof. exact failed_store_then_retry_writes. Qed.
